@@ -402,6 +402,243 @@ def gen_defaults():
     return "\n".join(out)
 
 
+# ==========================================================================================
+# arithmetic kernels -> Gen/Kernels.v
+# Each selected assignment / return expression of the listed functions is rendered as one Coq definition
+# over the vector DSL of Lib/Vec.v, parameterised by its free variables (type val), in order of first
+# occurrence.  The statement skeleton of every function is checked (fail-closed): an added, removed or
+# reordered statement, or an expression outside the grammar, raises TranslateError.
+#   grammar:  name | number | e (+|-|*|/) e | -e | e ** alpha (-> pw) | e ** 2 (-> square) | e ** 0.5 (-> psqrt)
+#             | 10 ** e (-> p10) | e[:-1] | e[1:] | e[i] (i integer expression over names and literals)
+#             | np.diff(e) | np.sum(e) | e.sum() | np.mean(e) | e.min() | e.max() | np.abs(e) | abs(e) | len(e)
+#             | np.std(e) (-> psqrt (var e)) | np.append(e, e) | np.array([numbers]) | np.asarray(e[, dtype=..]) (identity)
+#             | integral(x, y, method=...) (-> the parameter `integ`) 
+# ==========================================================================================
+class _KExpr:
+    def __init__(self, where):
+        self.where = where
+        self.free = []          # free value variables in order
+        self.ifree = []         # free integer variables (used inside indices)
+        self.uses = set()       # oracle parameters used: pw, psqrt, p10, integ
+
+    def bad(self, node, msg):
+        raise TranslateError("%s:%d: %s (%s)" % (self.where, getattr(node, "lineno", 0), msg, ast.dump(node)[:100]))
+
+    def var(self, name):
+        if name not in self.free:
+            self.free.append(name)
+        return name
+
+    def iexpr(self, e):
+        if isinstance(e, ast.Constant) and isinstance(e.value, int) and not isinstance(e.value, bool):
+            return "(%d)%%Z" % e.value
+        if isinstance(e, ast.UnaryOp) and isinstance(e.op, ast.USub):
+            return "(- %s)%%Z" % self.iexpr(e.operand)
+        if isinstance(e, ast.Name):
+            if e.id not in self.ifree:
+                self.ifree.append(e.id)
+            return e.id
+        if isinstance(e, ast.BinOp) and type(e.op) in (ast.Add, ast.Sub, ast.Mult):
+            op = {ast.Add: "+", ast.Sub: "-", ast.Mult: "*"}[type(e.op)]
+            return "(%s %s %s)%%Z" % (self.iexpr(e.left), op, self.iexpr(e.right))
+        self.bad(e, "index expression outside the grammar")
+
+    def num(self, v):
+        return "(VS %s)" % _num(v)
+
+    def expr(self, e):
+        if isinstance(e, ast.Name):
+            return self.var(e.id)
+        if isinstance(e, ast.Constant) and isinstance(e.value, (int, float)) and not isinstance(e.value, bool):
+            return self.num(e.value)
+        if isinstance(e, ast.UnaryOp) and isinstance(e.op, ast.USub):
+            return "(vneg %s)" % self.expr(e.operand)
+        if isinstance(e, ast.BinOp):
+            if isinstance(e.op, ast.Pow):
+                if isinstance(e.right, ast.Name) and e.right.id == "alpha":
+                    self.uses.add("pw")
+                    return "(vpow pw %s)" % self.expr(e.left)
+                if isinstance(e.right, ast.Constant) and e.right.value == 2:
+                    b = self.expr(e.left)
+                    return "(vmul %s %s)" % (b, b)
+                if isinstance(e.right, ast.Constant) and e.right.value == 0.5:
+                    self.uses.add("psqrt")
+                    return "(vpow psqrt %s)" % self.expr(e.left)
+                if isinstance(e.left, ast.Constant) and e.left.value == 10:
+                    self.uses.add("p10")
+                    return "(vpow p10 %s)" % self.expr(e.right)
+                self.bad(e, "power outside the grammar")
+            ops = {ast.Add: "vadd", ast.Sub: "vsub", ast.Mult: "vmul", ast.Div: "vdiv"}
+            if type(e.op) not in ops:
+                self.bad(e, "operator not accepted")
+            return "(%s %s %s)" % (ops[type(e.op)], self.expr(e.left), self.expr(e.right))
+        if isinstance(e, ast.Subscript):
+            sl = e.slice
+            if isinstance(sl, ast.Slice):
+                lo, hi, st = sl.lower, sl.upper, sl.step
+                if st is None and lo is None and isinstance(hi, ast.UnaryOp) and isinstance(hi.op, ast.USub) and getattr(hi.operand, "value", None) == 1:
+                    return "(vinit %s)" % self.expr(e.value)
+                if st is None and hi is None and isinstance(lo, ast.Constant) and lo.value == 1:
+                    return "(vtail %s)" % self.expr(e.value)
+                self.bad(e, "slice outside the grammar")
+            return "(vidx %s %s)" % (self.expr(e.value), self.iexpr(sl))
+        if isinstance(e, ast.Call):
+            f = e.func
+            name = None
+            if isinstance(f, ast.Attribute) and isinstance(f.value, ast.Name) and f.value.id == "np":
+                name = "np." + f.attr
+            elif isinstance(f, ast.Attribute):
+                name = "." + f.attr
+            elif isinstance(f, ast.Name):
+                name = f.id
+            kw = {k.arg: k.value for k in e.keywords}
+            if name in ("np.diff", "np.sum", "np.mean", "np.abs", "abs", "len") and len(e.args) == 1 and not kw:
+                return "(%s %s)" % ({"np.diff": "vdiff", "np.sum": "vsum", "np.mean": "vmean", "np.abs": "vabs", "abs": "vabs", "len": "vlen"}[name], self.expr(e.args[0]))
+            if name in (".sum", ".min", ".max") and not e.args and not kw:
+                return "(%s %s)" % ({".sum": "vsum", ".min": "vmin", ".max": "vmax"}[name], self.expr(f.value))
+            if name == "np.std" and len(e.args) == 1 and not kw:
+                self.uses.add("psqrt")
+                return "(VS (psqrt (vvar %s)))" % self.expr(e.args[0])
+            if name == "np.append" and len(e.args) == 2 and not kw:
+                return "(vappend %s %s)" % (self.expr(e.args[0]), self.expr(e.args[1]))
+            if name in ("np.asarray", "np.array", "np.asanyarray") and len(e.args) == 1 and set(kw) <= {"dtype", "copy"}:
+                a = e.args[0]
+                if isinstance(a, ast.List):
+                    vals = []
+                    for el in a.elts:
+                        if not (isinstance(el, ast.Constant) and isinstance(el.value, (int, float))):
+                            self.bad(e, "array literal outside the grammar")
+                        vals.append(_num(el.value))
+                    return "(varray [%s])" % "; ".join(vals)
+                return self.expr(a)
+            if name == "integral" and len(e.args) == 2 and set(kw) <= {"method"}:
+                self.uses.add("integ")
+                return "(integ %s %s)" % (self.expr(e.args[0]), self.expr(e.args[1]))
+            self.bad(e, "call outside the grammar")
+        self.bad(e, "expression outside the grammar")
+
+
+def _kdef(name, where, node):
+    k = _KExpr(where)
+    body = k.expr(node)
+    params = ""
+    if "pw" in k.uses:
+        params += "(pw : Qc -> Qc) "
+    if "psqrt" in k.uses:
+        params += "(psqrt : Qc -> Qc) "
+    if "p10" in k.uses:
+        params += "(p10 : Qc -> Qc) "
+    if "integ" in k.uses:
+        params += "(integ : val -> val -> val) "
+    if k.ifree:
+        params += "(%s : Z) " % " ".join(k.ifree)
+    if k.free:
+        params += "(%s : val) " % " ".join(k.free)
+    return "Definition %s %s: val :=\n  %s.\n" % (name, params, body)
+
+
+def _stmt_sig(st):
+    """coarse statement signature used for the skeleton check"""
+    if isinstance(st, ast.Assign) and len(st.targets) == 1:
+        t = st.targets[0]
+        if isinstance(t, ast.Name):
+            return "assign:" + t.id
+        if isinstance(t, ast.Tuple):
+            return "assign:(" + ",".join(getattr(x, "id", "?") for x in t.elts) + ")"
+        if isinstance(t, ast.Subscript):
+            return "assign:[]"
+    if isinstance(st, ast.AugAssign):
+        return "aug:" + ast.unparse(st.target)
+    if isinstance(st, ast.Return):
+        return "return"
+    if isinstance(st, ast.If):
+        return "if(" + ";".join(_stmt_sig(s) for s in st.body) + "|" + ";".join(_stmt_sig(s) for s in st.orelse) + ")"
+    if isinstance(st, ast.For):
+        return "for(" + ";".join(_stmt_sig(s) for s in st.body) + ")"
+    if isinstance(st, ast.Raise):
+        return "raise"
+    if isinstance(st, ast.Expr) and isinstance(st.value, ast.Constant):
+        return "doc"
+    return type(st).__name__
+
+
+def _find_fun(tree, name):
+    for node in tree.body:
+        if isinstance(node, ast.FunctionDef) and node.name == name:
+            return node
+    raise TranslateError("function %s not found" % name)
+
+
+def _body(fn):
+    b = list(fn.body)
+    if b and isinstance(b[0], ast.Expr) and isinstance(b[0].value, ast.Constant):
+        b = b[1:]
+    return b
+
+
+# function -> (file, expected skeleton, [(definition name, path to the expression)])
+# a path is a list of steps into the statement list: int = index, "body"/"orelse" = branch of an If/For, "value" = rhs
+KERNELS = [
+    ("sorted_array_utils.py", "rectangle_integral", "assign:d;return",
+     [("rectangle_integral__d", [0]), ("rectangle_integral__ret", [1])]),
+    ("sorted_array_utils.py", "trapezoid_integral", "return", [("trapezoid_integral__ret", [0])]),
+    ("sorted_array_utils.py", "append_one_sample", "assign:x;assign:y;assign:x;if(assign:y|assign:y);return",
+     [("append_one_sample__x", [2]), ("append_one_sample__y_last", [3, "body", 0]), ("append_one_sample__y_periodic", [3, "orelse", 0])]),
+    ("process.py", "normalize", "assign:a;assign:a_min;assign:a_max;return",
+     [("normalize__a_min", [1]), ("normalize__a_max", [2]), ("normalize__ret", [3])]),
+    ("process.py", "trend", "assign:x;assign:y;assign:range_x;for(if(aug:y[i]|aug:y[i]));return", [("trend__range_x", [2])]),
+    ("process.py", "repeat", "assign:x;assign:y;assign:n;assign:y;assign:x;for(assign:previous_range_diff;aug:x[n * i:n * (i + 1)]);return",
+     [("repeat__previous_range_diff", [5, "body", 0])]),
+    ("process.py", "truncate", "if(assign:x_left|);if(assign:x_right|);if(raise|);assign:left_id;assign:right_id;return",
+     [("truncate__x_left", [0, "body", 0]), ("truncate__x_right", [1, "body", 0])]),
+    ("process.py", "spline_smooth", "if(assign:s|);return", [("spline_smooth__s", [0, "body", 0])]),
+    ("process.py", "noise_gauss",
+     "assign:a;if(if(assign:snr|);assign:sp;if(assign:std_n|assign:std_n)|assign:std_n);assign:noise;return",
+     [("noise_gauss__sp", [1, "body", 1]), ("noise_gauss__std_n_db", [1, "body", 2, "body", 0]), ("noise_gauss__std_n_lin", [1, "body", 2, "orelse", 0])]),
+    ("match.py", "_integral_matching_stretch",
+     "assign:y;if(assign:x|assign:x);if(raise|);assign:current_integral;assign:delta_p;assign:x_n2;assign:delta_x;assign:delta_xi;"
+     "if(assign:w|assign:w);assign:y_hat;if(assign:y_hat|if(assign:y_hat|));assign:res_y;return",
+     [("stretch__current_integral", [3]), ("stretch__delta_p", [4]), ("stretch__x_n2", [5]), ("stretch__delta_x", [6]), ("stretch__delta_xi", [7]),
+      ("stretch__w_two_points", [8, "body", 0]), ("stretch__w", [8, "orelse", 0]),
+      ("stretch__y_hat_trapezoid", [10, "body", 0]), ("stretch__y_hat_rectangle", [10, "orelse", 0, "body", 0]), ("stretch__res_y", [11])]),
+]
+
+
+@target("Kernels")
+def gen_kernels():
+    out = ["(** GENERATED by tools/translate.py from the arithmetic kernels of /repo/src/traffic_weaver/{sorted_array_utils,process,match}.py",
+           "    — do not edit.  One definition per translated assignment / return expression, over the vector DSL of Lib/Vec.v;",
+           "    free variables of the Python expression become parameters; `** alpha` -> pw, `** 0.5` -> psqrt, `10 ** e` -> p10. *)",
+           "From TW Require Export Lib.Vec.", "Open Scope Qc_scope.", ""]
+    trees = {}
+    for fname, fn, skeleton, defs in KERNELS:
+        if fname not in trees:
+            trees[fname] = ast.parse(_src(fname))
+        f = _find_fun(trees[fname], fn)
+        body = _body(f)
+        got = ";".join(_stmt_sig(s) for s in body)
+        if got != skeleton:
+            raise TranslateError("%s:%s: statement skeleton changed:\n  expected %s\n  found    %s" % (fname, fn, skeleton, got))
+        for dname, path in defs:
+            cur = body
+            node = None
+            for step in path:
+                if isinstance(step, int):
+                    node = cur[step]
+                else:
+                    cur = getattr(node, step)
+            if isinstance(node, (ast.Assign, ast.Return)):
+                val = node.value
+            else:
+                raise TranslateError("%s:%s: path %s does not end at an assignment/return" % (fname, fn, path))
+            if isinstance(val, ast.Call) and getattr(val.func, "attr", None) == "sum" and isinstance(val.func.value, ast.Call) \
+                    and getattr(val.func.value.func, "id", None) == "integral":
+                pass
+            out.append("(* %s:%d  %s *)" % (fname, node.lineno, ast.unparse(node).replace("*)", "* )")[:150]))
+            out.append(_kdef(dname, fname, val))
+    return "\n".join(out)
+
+
 # MAIN-BLOCK (keep last)
 if __name__ == "__main__":
     import sys
